@@ -676,6 +676,31 @@ func init() {
 		}
 		return VBool{r}
 	}
+	// bytes.Compare: lexicographic order, a proper prefix sorts first
+	intrinsics["bytes.Compare"] = func(e *Exec, a []Value) Value {
+		x, y := e.bytesOf(a[0]), e.bytesOf(a[1])
+		n := len(x)
+		if len(y) < n {
+			n = len(y)
+		}
+		res := mint(0)
+		switch {
+		case len(x) < len(y):
+			res = mint(-1)
+		case len(x) > len(y):
+			res = mint(1)
+		}
+		for i := n - 1; i >= 0; i-- {
+			var lt, gt Term
+			if intMode {
+				lt, gt = IntCmp("<", x[i], y[i]), IntCmp(">", x[i], y[i])
+			} else {
+				lt, gt = BVBin("<", x[i], y[i], false), BVBin(">", x[i], y[i], false)
+			}
+			res = Ite(lt, mint(-1), Ite(gt, mint(1), res))
+		}
+		return VInt{res}
+	}
 	intrinsics["crypto/subtle.ConstantTimeCompare"] = func(e *Exec, a []Value) Value {
 		x, y := e.bytesOf(a[0]), e.bytesOf(a[1])
 		if len(x) != len(y) {
